@@ -186,6 +186,15 @@ func libLookup(name string) (libSpec, bool) {
 		return libSpec{"fresh", []int{0}}, true
 	case "maps.Clone", "slices.Clone":
 		return libSpec{"clone", nil}, true
+	case "maps.Keys":
+		// an iterator over the keys: reads the map when it is run, writes nothing; keys are copied out
+		return libSpec{"fresh", nil}, true
+	case "maps.Values", "slices.Values", "slices.All", "maps.All":
+		// an iterator that hands out what the argument holds: it stands for the argument
+		return libSpec{"arg0", nil}, true
+	case "slices.Sorted", "slices.Collect":
+		// a new slice filled with what the iterator hands out
+		return libSpec{"arg0deep", nil}, true
 	case "slices.Contains", "slices.Index", "slices.Equal", "slices.Compare", "slices.IsSorted", "slices.BinarySearch", "slices.Max", "slices.Min":
 		// read their arguments, hand out a scalar (Max / Min: an element - of a comparable, pointer-free ordered type)
 		return libSpec{"fresh", nil}, true
